@@ -56,55 +56,287 @@ Proof.
                    | VClose => PRes h' RClosed [] [EMsg m; EClose RHandler]
                    | VFatal => PRes h' RClosed [] [EMsg m; EFatal]
                    end).
-      { intros y. rewrite feedx_idle, one_msg_mono, E by congruence. rewrite skipn_app_le by lia. reflexivity. }
+      { intros y. rewrite feedx_idle, one_msg_mono, E by congruence. rewrite (skipn_app_le n l y L2). reflexivity. }
       destruct (handle h m) as [h' v] eqn:HV. destruct v.
       * destruct (after m) as [[k len]|] eqn:AF.
         -- destruct k.
            ++ destruct (feeds f h' (RPay KPiece len) (skipn n l)) as [h2 m2 b2 es2| |] eqn:F; cbn in H; try discriminate.
-              inversion H; subst. destruct (IH _ _ _ _ _ _ _ ltac:(unfold mu; lia) F) as [R G]. split; [|exact G].
+              inversion H; subst. match type of F with feeds _ _ ?mm ?ll = _ => assert (MU : mu mm ll < f) by (unfold mu; lia) end. destruct (IH _ _ _ _ _ _ _ MU F) as [R G]. split; [|exact G].
               intros y. rewrite HD, R, pcons_papp, papp_papp. reflexivity.
            ++ destruct (feeds f h' (RPay KExt len) (skipn n l)) as [h2 m2 b2 es2| |] eqn:F; cbn in H; try discriminate.
-              inversion H; subst. destruct (IH _ _ _ _ _ _ _ ltac:(unfold mu; lia) F) as [R G]. split; [|exact G].
+              inversion H; subst. match type of F with feeds _ _ ?mm ?ll = _ => assert (MU : mu mm ll < f) by (unfold mu; lia) end. destruct (IH _ _ _ _ _ _ _ MU F) as [R G]. split; [|exact G].
               intros y. rewrite HD, R, pcons_papp, papp_papp. reflexivity.
            ++ inversion H; subst. split; [|left; eauto].
               intros y. rewrite HD. rewrite pcons_papp. reflexivity.
         -- destruct (feeds f h' RIdle (skipn n l)) as [h2 m2 b2 es2| |] eqn:F; cbn in H; try discriminate.
-           inversion H; subst. destruct (IH _ _ _ _ _ _ _ ltac:(unfold mu; lia) F) as [R G]. split; [|exact G].
+           inversion H; subst. match type of F with feeds _ _ ?mm ?ll = _ => assert (MU : mu mm ll < f) by (unfold mu; lia) end. destruct (IH _ _ _ _ _ _ _ MU F) as [R G]. split; [|exact G].
            intros y. rewrite HD, R, pcons_papp, papp_papp. reflexivity.
       * inversion H; subst. split; [|right; split; reflexivity].
         intros y. rewrite HD. reflexivity.
       * inversion H; subst. split; [|right; split; reflexivity].
         intros y. rewrite HD. reflexivity.
   - (* RPay *)
-    assert (HD : forall y, feedx h (RPay k lft) (l ++ y) = pbind HS handle rl (feedx h (RPay k lft) l) y)
-      by (intros; apply feedx_app').
-    rewrite feedx_pay in HD.
     destruct (N.of_nat (length l) <? lft)%N eqn:E.
-    + inversion H; subst. split.
-      * intros y. rewrite HD. reflexivity.
-      * right. apply N.ltb_lt in E. split; cbn [m_h m_mode m_buf]; [|reflexivity].
+    + injection H as E1 E2 E3 E4; subst h1 m1 b1 es1. apply N.ltb_lt in E. split.
+      * intros y. rewrite (feedx_app' HS handle rl h (RPay k lft) l y), feedx_pay.
+        assert (X : (N.of_nat (length l) <? lft)%N = true) by (apply N.ltb_lt; exact E).
+        rewrite X. reflexivity.
+      * right. split; cbn [m_h m_mode m_buf]; [|reflexivity].
         rewrite feedx_pay. cbn [length].
         assert (X : (N.of_nat 0 <? lft - N.of_nat (length l))%N = true) by (apply N.ltb_lt; lia).
         rewrite X. f_equal. f_equal. lia.
-    + destruct (handle h (pay_done k)) as [h' v] eqn:HV. destruct v.
+    + apply N.ltb_ge in E.
+      assert (HD : forall y, feedx h (RPay k lft) (l ++ y) =
+                   let (h', v) := handle h (pay_done k) in
+                   match v with
+                   | VCont => pcons HS (EMsg (pay_done k)) (feedx h' RIdle (skipn (N.to_nat lft) l ++ y))
+                   | VClose => PRes h' RClosed [] [EMsg (pay_done k); EClose RHandler]
+                   | VFatal => PRes h' RClosed [] [EMsg (pay_done k); EFatal]
+                   end).
+      { intros y. rewrite feedx_pay, app_length.
+        assert (X : (N.of_nat (length l + length y) <? lft)%N = false) by (apply N.ltb_ge; lia).
+        rewrite X. rewrite skipn_app_le by lia. reflexivity. }
+      destruct (handle h (pay_done k)) as [h' v] eqn:HV. destruct v.
       * pose proof (skipn_length_le (N.to_nat lft) l). unfold mu in Hf.
         destruct (feeds f h' RIdle (skipn (N.to_nat lft) l)) as [h2 m2 b2 es2| |] eqn:F; cbn in H; try discriminate.
-        inversion H; subst. destruct (IH _ _ _ _ _ _ _ ltac:(unfold mu; lia) F) as [R G]. split; [|exact G].
-        intros y. rewrite HD. rewrite pcons_papp, pbind_papp. unfold pbind.
-        destruct (ProofsB.feedx HS handle rl h' RIdle (skipn (N.to_nat lft) l)) as [h3 m3 b3 es3| |] eqn:F3.
-        -- rewrite <- (app_nil_r (skipn (N.to_nat lft) l)) in F3 at 1.
-           pose proof (R []) as R0. rewrite app_nil_r in R0.
-           (* both describe decoding skipn ... ++ y *)
-           rewrite <- (feedx_app' HS handle rl h' RIdle (skipn (N.to_nat lft) l) y) at 1 || idtac.
-           admit.
-        -- admit.
-        -- admit.
+        inversion H; subst. match type of F with feeds _ _ ?mm ?ll = _ => assert (MU : mu mm ll < f) by (unfold mu; lia) end. destruct (IH _ _ _ _ _ _ _ MU F) as [R G]. split; [|exact G].
+        intros y. rewrite HD, R, pcons_papp, papp_papp. reflexivity.
       * inversion H; subst. split; [|right; split; reflexivity].
         intros y. rewrite HD. reflexivity.
       * inversion H; subst. split; [|right; split; reflexivity].
         intros y. rewrite HD. reflexivity.
   - inversion H; subst. split; [|right; split; reflexivity].
     intros y. reflexivity.
-Admitted.
+Qed.
+
+Lemma good_cnt h m b c c' : good (mk_mst h m b c) -> good (mk_mst h m b c').
+Proof. intros G. exact G. Qed.
+
+(* decoding a payload slice that is not longer than the payload leaves no buffer rest, and if the
+   payload is still incomplete afterwards the slice was the whole input *)
+Lemma pay_slice h k lft l h1 m1 b1 es1 :
+  (N.of_nat (length l) <= lft)%N -> feedx h (RPay k lft) l = PRes h1 m1 b1 es1 ->
+  b1 = [] /\ (forall k1 l1, m1 = RPay k1 l1 -> (N.of_nat (length l) < lft)%N).
+Proof.
+  intros L H. rewrite feedx_pay in H.
+  destruct (N.of_nat (length l) <? lft)%N eqn:E.
+  - inversion H; subst. split; [reflexivity|]. intros. apply N.ltb_lt. exact E.
+  - apply N.ltb_ge in E. assert (EQ : N.to_nat lft = length l) by lia.
+    rewrite EQ, skipn_all in H.
+    destruct (handle h (pay_done k)) as [h' v]. destruct v.
+    + rewrite feedx_idle in H. cbn in H. inversion H; subst. split; [reflexivity|]. intros; discriminate.
+    + inversion H; subst. split; [reflexivity|]. intros; discriminate.
+    + inversion H; subst. split; [reflexivity|]. intros; discriminate.
+Qed.
+
+Definition refinesW (s : mst) (avail : list N) (s' : mst) (avail' : list N) (es : list effect) : Prop :=
+  exists c, avail = c ++ avail' /\ forall y, A s (c ++ y) = papp es (A s' y).
+
+Lemma refinesW_refl s avail : refinesW s avail s avail [].
+Proof. exists []. split; [reflexivity|]. intros y. cbn [app]. symmetry. apply papp_nil. Qed.
+
+Lemma refinesW_trans s a s1 a1 e1 s2 a2 e2 :
+  refinesW s a s1 a1 e1 -> refinesW s1 a1 s2 a2 e2 -> refinesW s a s2 a2 (e1 ++ e2).
+Proof.
+  intros (c1 & Q1 & R1) (c2 & Q2 & R2). exists (c1 ++ c2). split; [subst; rewrite app_assoc; reflexivity|].
+  intros y. rewrite <- app_assoc, R1, R2. apply papp_papp.
+Qed.
+
+Lemma good_closed h c : good (mk_mst h RClosed [] c).
+Proof. split; reflexivity. Qed.
+
+Lemma ev_meta_refines : forall fuel s avail s' avail' es,
+  (m_mode s = RClosed -> good s) ->
+  ev_meta fuel s avail = MRet s' avail' es -> refinesW s avail s' avail' es /\ good s'.
+Proof.
+  induction fuel as [|f IH]; intros s avail s' avail' es GC H; [discriminate|].
+  cbn [Model.ev_meta] in H. cbv zeta in H.
+  destruct (m_mode s) as [|k lft|] eqn:M.
+  - (* RIdle *)
+    set (want := if length (m_buf s) <? bufsz then Nat.min (bufsz - length (m_buf s)) (cap budget (m_cnt s)) else 0) in *.
+    pose proof (firstn_skipn want avail) as FS.
+    remember (firstn want avail) as got.
+    destruct (bufcap <? length (m_buf s) + length got); [discriminate|].
+    destruct (Model.feeds HS handle rl (S (length (m_buf s) + length got)) (m_h s) RIdle (m_buf s ++ got))
+      as [h1 m1 b1 es1| |] eqn:F1; try discriminate.
+    assert (MU : mu RIdle (m_buf s ++ got) < S (length (m_buf s) + length got)) by (unfold mu; rewrite app_length; lia).
+    destruct (feeds_refines _ _ _ _ _ _ _ _ MU F1) as [R1 G1].
+    assert (RW1 : forall c, refinesW s avail (mk_mst h1 m1 b1 c) (skipn want avail) es1).
+    { intros c. exists got. split; [symmetry; exact FS|]. intros y. unfold ProofsD.A. cbn [m_h m_mode m_buf].
+      rewrite M, app_assoc. apply R1. }
+    assert (GC1 : forall c, m1 = RClosed -> good (mk_mst h1 m1 b1 c)).
+    { intros c ->. destruct G1 as [[? X]|G1]; [discriminate|exact G1]. }
+    assert (STEP : forall c,
+              (if (length (m_buf s) + length got =? bufsz) || negb (is_idle m1)
+               then mapp HS es1 (ev_meta f (mk_mst h1 m1 b1 c) (skipn want avail))
+               else MRet (mk_mst h1 m1 b1 c) (skipn want avail) es1) = MRet s' avail' es ->
+              (forall lft, m1 <> RPay KExt lft) -> (forall lft, m1 = RPay KBits lft -> True) ->
+              refinesW s avail s' avail' es /\ good s').
+    { intros c H' NE _.
+      destruct ((length (m_buf s) + length got =? bufsz) || negb (is_idle m1)) eqn:C.
+      - apply mapp_ret in H'. destruct H' as (e2 & H' & ->).
+        destruct (IH (mk_mst h1 m1 b1 c) _ _ _ _ (GC1 c) H') as [R2 G2].
+        split; [|exact G2]. eapply refinesW_trans; [apply RW1|exact R2].
+      - inversion H'; subst. split; [apply RW1|].
+        apply orb_false_iff in C. destruct C as [_ C]. apply negb_false_iff in C.
+        destruct m1; try discriminate. destruct G1 as [[? X]|G1]; [discriminate|exact G1]. }
+    destruct m1 as [|k1 lft1|].
+    + eapply STEP; eauto; intros; discriminate.
+    + destruct k1.
+      * eapply STEP; eauto; intros; discriminate.
+      * (* KExt: one recv inside read_message *)
+        assert (B1 : b1 = []).
+        { destruct G1 as [[? X]|[_ G1]]; [discriminate|exact G1]. }
+        subst b1.
+        set (want2 := Nat.min (N.to_nat lft1) (cap budget (S (m_cnt s)))) in *.
+        pose proof (firstn_skipn want2 (skipn want avail)) as FS2.
+        remember (firstn want2 (skipn want avail)) as got2.
+        remember (skipn want2 (skipn want avail)) as avail2.
+        rewrite (feedx_fuel HS handle rl) in H by (unfold mu; lia).
+        destruct (ProofsB.feedx HS handle rl h1 (RPay KExt lft1) got2) as [h2 m2 b2 es2| |] eqn:F2; try discriminate.
+        pose proof (good_of_feed HS handle rl _ _ _ _ _ _ _ (S (S (m_cnt s))) F2) as G2.
+        assert (RW2 : refinesW (mk_mst h1 (RPay KExt lft1) [] (S (m_cnt s))) (skipn want avail)
+                               (mk_mst h2 m2 b2 (S (S (m_cnt s)))) avail2 es2).
+        { exists got2. split; [symmetry; exact FS2|]. intros y. unfold ProofsD.A. cbn [m_h m_mode m_buf].
+          apply (A_step HS handle rl h1 (RPay KExt lft1) [] got2). exact F2. }
+        pose proof (refinesW_trans _ _ _ _ _ _ _ _ (RW1 (S (m_cnt s))) RW2) as RW12.
+        destruct ((length (m_buf s) + length got =? bufsz) || negb (is_idle m2)).
+        -- apply mapp_ret in H. destruct H as (e2 & H & ->).
+           destruct (IH (mk_mst h2 m2 b2 (S (S (m_cnt s)))) _ _ _ _ (fun _ => G2) H) as [R3 G3].
+           split; [|exact G3]. eapply refinesW_trans; [exact RW12|exact R3].
+        -- inversion H; subst. split; [exact RW12|exact G2].
+      * eapply STEP; eauto; intros; discriminate.
+    + eapply STEP; eauto; intros; discriminate.
+  - (* RPay: from the buffer first, then one recv *)
+    set (c := Nat.min (N.to_nat lft) (length (m_buf s))) in *.
+    pose proof (firstn_skipn c (m_buf s)) as FSB.
+    assert (LC : (N.of_nat (length (firstn c (m_buf s))) <= lft)%N) by (rewrite firstn_length; unfold c; lia).
+    assert (LC2 : length (firstn c (m_buf s)) = c) by (rewrite firstn_length; unfold c; lia).
+    rewrite (feedx_fuel HS handle rl) in H by (unfold mu; lia).
+    destruct (ProofsB.feedx HS handle rl (m_h s) (RPay k lft) (firstn c (m_buf s))) as [h1 m1 b1 es1| |] eqn:F1; try discriminate.
+    destruct (pay_slice _ _ _ _ _ _ _ _ LC F1) as [B1 PL]. subst b1.
+    pose proof (good_of_feed HS handle rl _ _ _ _ _ _ _ (m_cnt s) F1) as G1.
+    assert (RW1 : forall cc, refinesW s avail (mk_mst h1 m1 (skipn c (m_buf s)) cc) avail es1).
+    { intros cc. exists []. split; [reflexivity|]. intros y. cbn [app]. unfold ProofsD.A. cbn [m_h m_mode m_buf].
+      rewrite M.
+      replace (m_buf s ++ y) with (firstn c (m_buf s) ++ skipn c (m_buf s) ++ y) by (rewrite app_assoc, FSB; reflexivity).
+      pose proof (A_step HS handle rl (m_h s) (RPay k lft) [] (firstn c (m_buf s)) _ _ _ _ F1 (skipn c (m_buf s) ++ y)) as X.
+      cbn [app] in X. exact X. }
+    destruct m1 as [|k1 lft1|].
+    + apply mapp_ret in H. destruct H as (e2 & H & ->).
+      assert (GCI : m_mode (mk_mst h1 RIdle (skipn c (m_buf s)) (m_cnt s)) = RClosed -> good (mk_mst h1 RIdle (skipn c (m_buf s)) (m_cnt s)))
+        by (cbn [m_mode]; discriminate).
+      destruct (IH (mk_mst h1 RIdle (skipn c (m_buf s)) (m_cnt s)) _ _ _ _ GCI H) as [R2 G2].
+      split; [|exact G2]. eapply refinesW_trans; [apply RW1|exact R2].
+    + (* payload still incomplete: the buffer is exhausted *)
+      assert (REST : skipn c (m_buf s) = []).
+      { pose proof (PL _ _ eq_refl) as LT. rewrite LC2 in LT. apply skipn_all2. unfold c in *. lia. }
+      rewrite REST in *.
+      set (want := Nat.min (N.to_nat lft1) (cap budget (m_cnt s))) in *.
+      pose proof (firstn_skipn want avail) as FS.
+      destruct (firstn want avail) as [|g0 gs] eqn:GOT.
+      * inversion H; subst. split; [apply RW1|exact G1].
+      * set (got := g0 :: gs) in *.
+        rewrite (feedx_fuel HS handle rl) in H by (unfold mu; lia).
+        destruct (ProofsB.feedx HS handle rl h1 (RPay k1 lft1) got) as [h2 m2 b2 es2| |] eqn:F2; try discriminate.
+        pose proof (good_of_feed HS handle rl _ _ _ _ _ _ _ (S (m_cnt s)) F2) as G2.
+        assert (RW2 : refinesW (mk_mst h1 (RPay k1 lft1) [] (m_cnt s)) avail (mk_mst h2 m2 b2 (S (m_cnt s))) (skipn want avail) es2).
+        { exists got. split; [symmetry; exact FS|]. intros y. unfold ProofsD.A. cbn [m_h m_mode m_buf].
+          apply (A_step HS handle rl h1 (RPay k1 lft1) [] got). exact F2. }
+        pose proof (refinesW_trans _ _ _ _ _ _ _ _ (RW1 (m_cnt s)) RW2) as RW12.
+        assert (LG : (N.of_nat (length got) <= lft1)%N).
+        { pose proof (firstn_le_length want avail) as FL. rewrite GOT in FL. fold got in FL. unfold want in FL. lia. }
+        destruct (pay_slice _ _ _ _ _ _ _ _ LG F2) as [B2 _]. subst b2.
+        destruct m2 as [|k2 lft2|].
+        -- apply mapp_ret in H. destruct H as (e2 & H & ->).
+           assert (GCI : m_mode (mk_mst h2 RIdle [] (S (m_cnt s))) = RClosed -> good (mk_mst h2 RIdle [] (S (m_cnt s))))
+             by (cbn [m_mode]; discriminate).
+           destruct (IH (mk_mst h2 RIdle [] (S (m_cnt s))) _ _ _ _ GCI H) as [R3 G3].
+           split; [|exact G3]. eapply refinesW_trans; [exact RW12|exact R3].
+        -- inversion H; subst. split; [exact RW12|exact G2].
+        -- inversion H; subst. split; [exact RW12|exact G2].
+    + inversion H; subst. split; [|apply good_closed].
+      destruct (RW1 (m_cnt s)) as (c0 & Q & R). exists c0. split; [exact Q|].
+      intros y. rewrite R. unfold ProofsD.A. cbn [m_h m_mode m_buf]. reflexivity.
+  - inversion H; subst. split; [apply refinesW_refl|apply GC; reflexivity].
+Qed.
+
+Lemma drain_meta_refines : forall fuel s avail s' avail' es,
+  good s -> drain_meta fuel s avail = MRet s' avail' es ->
+  good s' /\ exists c rest, avail = c ++ rest /\ (m_mode s' = RClosed \/ rest = []) /\
+                           forall y, A s (c ++ y) = papp es (A s' y).
+Proof.
+  induction fuel as [|f IH]; intros s avail s' avail' es G H; [discriminate|].
+  cbn [Model.drain_meta] in H.
+  destruct avail as [|a0 av].
+  { inversion H; subst. split; [exact G|]. exists [], []. split; [reflexivity|]. split; [right; reflexivity|].
+    intros y. cbn. symmetry. apply papp_nil. }
+  assert (STEP : forall s1 a1 e1,
+            ev_meta (evm_fuel (a0 :: av)) s (a0 :: av) = MRet s1 a1 e1 ->
+            (if length a1 <? length (a0 :: av) then mapp HS e1 (drain_meta f s1 a1) else MOut) = MRet s' avail' es ->
+            good s' /\ exists c rest, a0 :: av = c ++ rest /\ (m_mode s' = RClosed \/ rest = []) /\
+                                     forall y, A s (c ++ y) = papp es (A s' y)).
+  { intros s1 a1 e1 E D.
+    destruct (length a1 <? length (a0 :: av)); [|discriminate].
+    apply mapp_ret in D. destruct D as (e2 & D & ->).
+    destruct (ev_meta_refines _ _ _ _ _ _ (fun _ => G) E) as [(c1 & Q1 & R1) G1].
+    destruct (IH _ _ _ _ _ G1 D) as [G2 (c2 & rest & Q2 & CL & R2)].
+    split; [exact G2|]. exists (c1 ++ c2), rest. split; [rewrite Q1, Q2, app_assoc; reflexivity|].
+    split; [exact CL|].
+    intros y. rewrite <- app_assoc, R1, R2. apply papp_papp. }
+  destruct (m_mode s) eqn:M.
+  - destruct (ev_meta (evm_fuel (a0 :: av)) s (a0 :: av)) as [s1 a1 e1| |] eqn:E; try discriminate. eapply STEP; eauto.
+  - destruct (ev_meta (evm_fuel (a0 :: av)) s (a0 :: av)) as [s1 a1 e1| |] eqn:E; try discriminate. eapply STEP; eauto.
+  - inversion H; subst. split; [exact G|]. exists [], (a0 :: av). split; [reflexivity|]. split; [left; exact M|].
+    intros y. cbn. symmetry. apply papp_nil.
+Qed.
+
+Lemma run_segs_meta_refines : forall segs s s' avail' es,
+  good s -> run_segs_meta s segs = MRet s' avail' es ->
+  good s' /\ A s (concat segs) = papp es (A s' []).
+Proof.
+  induction segs as [|seg more IH]; intros s s' avail' es G H.
+  - cbn in H. inversion H; subst. split; [exact G|]. cbn. symmetry. apply papp_nil.
+  - cbn [Model.run_segs_meta] in H.
+    destruct (drain_meta (drain_fuel seg) s seg) as [s1 a1 e1| |] eqn:D; try discriminate.
+    apply mapp_ret in H. destruct H as (e2 & H & ->).
+    destruct (drain_meta_refines _ _ _ _ _ _ G D) as [G1 (c & rest & Q & CL & R)].
+    destruct (IH _ _ _ _ G1 H) as [G2 R2].
+    split; [exact G2|]. cbn [concat]. rewrite Q, <- app_assoc, R.
+    destruct CL as [CL|CL].
+    + rewrite (A_closed HS handle rl s1 (rest ++ concat more) (concat more) CL G1), R2. apply papp_papp.
+    + subst rest. cbn [app]. rewrite R2. apply papp_papp.
+Qed.
+
+(* The metadata connection: whatever the segmentation and the recv budgets, a run that ends
+   normally has emitted exactly the effects of decoding the handed-over bytes followed by the
+   concatenated segments, and is in the state that decode denotes (after commit 37af099 this
+   includes a BITFIELD and everything buffered behind it). *)
+Theorem meta_machine_refines_decode : forall (h : HS) (pre : list N) (segs : list (list N)) s' avail' es,
+  run_meta HS handle rl budget h pre segs = MRet s' avail' es ->
+  decode HS handle rl h (pre ++ concat segs) = PRes (m_h s') (m_mode s') (m_buf s') es.
+Proof.
+  intros h pre segs s' avail' es H. unfold run_meta in H.
+  assert (FIN : forall s0 es0 e2, good s0 ->
+            (forall y, feedx h RIdle (pre ++ y) = papp es0 (A s0 y)) ->
+            run_segs_meta s0 segs = MRet s' avail' e2 ->
+            decode HS handle rl h (pre ++ concat segs) = PRes (m_h s') (m_mode s') (m_buf s') (es0 ++ e2)).
+  { intros s0 es0 e2 G0 R0 RS.
+    destruct (run_segs_meta_refines _ _ _ _ _ G0 RS) as [[G1 _] RR].
+    rewrite decode_feedx, R0, RR, papp_papp. unfold ProofsD.A. rewrite app_nil_r, G1.
+    unfold ProofsB.papp. rewrite app_nil_r. reflexivity. }
+  destruct pre as [|p0 ps] eqn:P.
+  - apply mapp_ret in H. destruct H as (e2 & H & ->).
+    apply (FIN (mk_mst h RIdle [] 0) [] e2); [split; cbn; [rewrite feedx_idle|]; reflexivity| |exact H].
+    intros y. cbn [app]. symmetry. apply papp_nil.
+  - rewrite <- P in *.
+    destruct (ev_meta (evm_fuel []) (mk_mst h RIdle pre 0) []) as [s0 a0 es0| |] eqn:E; try discriminate.
+    apply mapp_ret in H. destruct H as (e2 & H & ->).
+    assert (GC : m_mode (mk_mst h RIdle pre 0) = RClosed -> good (mk_mst h RIdle pre 0)) by (cbn [m_mode]; discriminate).
+    destruct (ev_meta_refines _ _ _ _ _ _ GC E) as [(c & Q & R) G0].
+    destruct c; [|discriminate]. 
+    apply (FIN s0 es0 e2 G0); [|exact H].
+    intros y. pose proof (R y) as RY. unfold ProofsD.A in RY at 1. cbn [m_h m_mode m_buf app] in RY. exact RY.
+Qed.
 
 End MetaProofs.
